@@ -1290,6 +1290,19 @@ class ListNode(SyntaxNodeBase):
             self._nodes = []
             return
         old_end_padding = self._get_end_padding()
+        # the comments that follow a shortcut inside the list: position of the value they follow
+        inner_comments = []
+        position = 0
+        for node in self._nodes[:-1]:
+            if isinstance(node, ShortcutNode):
+                position += len(node.nodes)
+                if node._shares_edge:
+                    position = None
+                    break
+                if node.end_padding is not None and any(node.end_padding.comments):
+                    inner_comments.append((position - 1, node, node.end_padding))
+            else:
+                position += 1
         new_vals_cache = {id(v): v for v in new_vals}
         # bind shortcuts to single site in new values
         for shortcut in self._shortcuts:
@@ -1340,6 +1353,15 @@ class ListNode(SyntaxNodeBase):
                 if isinstance(end, ShortcutNode):
                     end = end.nodes[-1]
                 end.padding = old_end_padding
+        # ... and the comments after a shortcut that did not survive stay behind the value they followed
+        if position is not None:
+            for position, shortcut, padding in inner_comments:
+                if any(shortcut is node for node in self._nodes):
+                    continue
+                if position < len(new_vals) and any(
+                    new_vals[position] is node for node in self._nodes[:-1]
+                ):
+                    new_vals[position].padding = padding
 
     def _get_end_padding(self):
         """
